@@ -17,7 +17,7 @@ INVARIANT C14_NumbersAgree
 INVARIANT C14_ValidityContainsNow
 INVARIANT C14_StorePublished
 INVARIANT C01_ManifestExact
-INVARIANT C01_ServedIsContent
+INVARIANT C0109_ServedIsContent
 INVARIANT RpMatches
 INVARIANT SettledAgreed
 INVARIANT T_C01_Clean
